@@ -79,6 +79,15 @@ type GenOpts struct {
 	// Monster: chance in 1000 per definition step of a definition with up to 255 fields of up to 255
 	// bytes plus up to 255 developer fields (records of up to ~130 KB are legal).
 	Monster int
+	// TimeModel: chance in 100 that a time field is generated the way a device writes it rather than
+	// from the value patterns: an explicit timestamp equal or close to the current reference (also
+	// exactly what a compressed header has just produced), local timestamps at a constant zone offset
+	// from the reference, now and then a small "system time" (seconds since power-on) timestamp.
+	TimeModel int
+	// RedefSimilar: chance in 100 that a redefinition of a slot is a near-copy of the definition it
+	// replaces with exactly one aspect changed (developer fields added or removed, byte order flipped,
+	// reserved byte changed, one field dropped / added / resized, two fields swapped).
+	RedefSimilar int
 	// ZeroFieldDefs: chance in 100 that a definition of a known message lists no profile field at all.
 	ZeroFieldDefs int
 	// ValueFor overrides the value of a scalar field (ok=false: default patterns).
@@ -352,6 +361,10 @@ func serialField(g uint16) *ref.PField {
 
 // PlanGen is a stateful generator of one plan.
 type PlanGen struct {
+	// it mirrors the reference interpretation of the records generated so far (time reference)
+	it     *ref.Interp
+	fed    int
+	zone   int64
 	O      GenOpts
 	R      *Rand
 	P      *ref.Plan
@@ -547,7 +560,36 @@ func (g *PlanGen) Define(local byte, m uint16, knownMsg bool) {
 		}
 		_ = total
 	}
-	if g.O.Monster > 0 && rng.Chance(g.O.Monster, 1000) {
+	if g.O.Monster > 0 && rng.Chance(g.O.Monster, 2000) {
+		// a record whose total size sits at a 16-bit boundary (64 KiB +- a little, 128 KiB - a little)
+		targets := []int{65535, 65536, 65537, 65536 + rng.Intn(300), 65536 - rng.Intn(300), 2*65536 - 1 - rng.Intn(1100), 65536 + 255, 65536 + 256, 65536 + 257}
+		target := targets[rng.Intn(len(targets))]
+		cur := 0
+		for _, f := range def.Fields {
+			cur += int(f.Size)
+		}
+		def.HasDev = true
+		for tries := 0; tries < 3000 && cur < target; tries++ {
+			sz := 255
+			if target-cur < 255 {
+				sz = target - cur
+			}
+			if len(def.Fields) < 255 && rng.Chance(1, 2) {
+				num := rng.Byte()
+				if used[num] || num == 253 || knownMsg && p.Field(m, num) != nil {
+					continue
+				}
+				used[num] = true
+				def.Fields = append(def.Fields, ref.FieldDef{Num: num, Size: byte(sz), Base: 0x0D})
+				cur += sz
+			} else if len(def.Dev) < 255 {
+				def.Dev = append(def.Dev, ref.DevDef{Num: rng.Byte(), Size: byte(sz), Idx: byte(rng.Intn(4))})
+				cur += sz
+			} else if len(def.Fields) >= 255 {
+				break
+			}
+		}
+	} else if g.O.Monster > 0 && rng.Chance(g.O.Monster, 2000) {
 		nf := 100 + rng.Intn(156-len(def.Fields)%100)
 		for tries := 0; tries < 2000 && len(def.Fields) < nf && len(def.Fields) < 255; tries++ {
 			num := rng.Byte()
@@ -606,7 +648,118 @@ func (g *PlanGen) Define(local byte, m uint16, knownMsg bool) {
 	g.defs[local] = &d
 }
 
+// DefineSimilar redefines slot local with a near-copy of its current definition.
+func (g *PlanGen) DefineSimilar(local byte) {
+	p := Profile()
+	rng := g.R
+	old := g.defs[local]
+	def := ref.Record{IsDef: true, Local: local, Global: old.Global, Arch: old.Arch, Reserved: old.Reserved, HasDev: old.HasDev}
+	def.Fields = append([]ref.FieldDef(nil), old.Fields...)
+	def.Dev = append([]ref.DevDef(nil), old.Dev...)
+	switch rng.Intn(8) {
+	case 0, 1: // developer fields added or removed
+		if def.HasDev && len(def.Dev) > 0 {
+			def.HasDev, def.Dev = false, nil
+		} else {
+			def.HasDev = true
+			def.Dev = nil
+			for k := 1 + rng.Intn(3); k > 0; k-- {
+				def.Dev = append(def.Dev, ref.DevDef{Num: rng.Byte(), Size: byte(1 + rng.Intn(12)), Idx: byte(rng.Intn(3))})
+			}
+		}
+	case 2:
+		def.Arch ^= 1
+	case 3:
+		def.Reserved = rng.Byte()
+	case 4:
+		if len(def.Fields) > 1 {
+			def.Fields = def.Fields[:len(def.Fields)-1]
+		}
+	case 5: // developer field sizes changed only
+		if def.HasDev && len(def.Dev) > 0 {
+			def.Dev[rng.Intn(len(def.Dev))].Size = byte(rng.Intn(20))
+		} else {
+			def.Arch ^= 1
+		}
+	case 6: // resize an array / string / unknown field
+		for _, i := range rng.Perm(len(def.Fields)) {
+			f := &def.Fields[i]
+			pf := p.Field(def.Global, f.Num)
+			bt, ok := ref.BaseByCode(f.Base)
+			if !ok {
+				continue
+			}
+			if pf == nil || pf.Array || bt.Code == 0x07 {
+				ns := int(f.Size) + bt.Size*(1+rng.Intn(3))
+				if ns <= 255 {
+					f.Size = byte(ns)
+					break
+				}
+			}
+		}
+	default:
+		if len(def.Fields) > 1 {
+			i, j := rng.Intn(len(def.Fields)), rng.Intn(len(def.Fields))
+			def.Fields[i], def.Fields[j] = def.Fields[j], def.Fields[i]
+		}
+	}
+	g.P.Records = append(g.P.Records, def)
+	d := def
+	g.defs[local] = &d
+}
+
 // Data writes a data record on slot local (which must be defined).
+// sync feeds the records appended since the last call into the mirror interpreter.
+func (g *PlanGen) sync() {
+	if g.it == nil {
+		g.it = ref.NewInterp(Profile())
+		zones := []int64{0, 3600, -18000, 19800, 2700, -3600 * 11}
+		g.zone = zones[g.R.Intn(len(zones))]
+	}
+	for g.fed < len(g.P.Records) {
+		g.it.Feed(&g.P.Records[g.fed])
+		g.fed++
+	}
+}
+
+// timeValue returns a device-like value for a time field, if the time model applies.
+func (g *PlanGen) timeValue(pf *ref.PField, compressed bool, offset byte) (uint64, bool) {
+	if g.O.TimeModel == 0 || !g.R.Chance(g.O.TimeModel, 100) {
+		return 0, false
+	}
+	g.sync()
+	rng := g.R
+	refv, has := g.it.Ref, g.it.HasRef
+	if compressed && has {
+		refv += (uint32(offset&0x1F) - refv&31) & 31 // what the header of this very record yields
+	}
+	if pf.Kind == ref.KTimeLocal {
+		if !has {
+			return 0, false
+		}
+		v := int64(refv) + g.zone
+		if v <= 0 || v >= 0xFFFF0000 {
+			return 0, false
+		}
+		return uint64(v), true
+	}
+	if pf.Num != 253 {
+		return 0, false
+	}
+	switch {
+	case rng.Chance(8, 100): // seconds since power-on
+		return uint64(1 + rng.Intn(1<<20)), true
+	case !has || refv < 0x10000000:
+		return uint64(0x30000000 + rng.Intn(0x10000000)), true
+	default:
+		d := []uint32{0, 0, 0, 1, 2, 5, 31, 32, 33, 64, uint32(rng.Intn(300))}[rng.Intn(11)]
+		if uint64(refv)+uint64(d) >= 0xFFFF0000 {
+			return 0, false
+		}
+		return uint64(refv + d), true
+	}
+}
+
 func (g *PlanGen) Data(local byte) {
 	p := Profile()
 	rng := g.R
@@ -641,6 +794,14 @@ func (g *PlanGen) Data(local byte) {
 		if def.Global == 0 && fd.Num == 0 && known {
 			r.Data = append(r.Data, []byte{g.O.FileType})
 			continue
+		}
+		if pf != nil && pf.Kind != ref.KNative && fd.Size == 4 {
+			if v, ok := g.timeValue(pf, r.Compressed, r.TimeOffset); ok && (pf.Kind == ref.KTimeUTC || pf.Kind == ref.KTimeLocal) {
+				b := make([]byte, 4)
+				ref.Put(b, v, 4, def.Arch)
+				r.Data = append(r.Data, b)
+				continue
+			}
 		}
 		r.Data = append(r.Data, GenFieldData(rng, pf, fd, def.Arch, &g.O))
 	}
@@ -693,6 +854,10 @@ func (g *PlanGen) Fill() *ref.Plan {
 			}
 		}
 		if g.defs[l] == nil || rng.Chance(g.O.Redefine, 100) {
+			if g.defs[l] != nil && g.defs[l].Global != 0 && g.O.RedefSimilar > 0 && rng.Chance(g.O.RedefSimilar, 100) {
+				g.DefineSimilar(l)
+				continue
+			}
 			m, known := g.PickMesg()
 			g.Define(l, m, known)
 			continue
